@@ -165,7 +165,8 @@ def build_thread(interp, tid, calls, mem):
                 if key in memo:
                     branches.append((s2.pc, memo[key])); continue
                 fr_ = s2.frames[-1]
-                pp = (callidx, len(s2.frames), fr_.fn.name, fr_.bb, fr_.i, sx(desc[:2]))
+                # program point = the whole call stack (so that the same callee reached from different call sites is not mistaken for a loop)
+                pp = (callidx, tuple((f_.fn.name, f_.bb, f_.i) for f_ in s2.frames), sx(desc[:2]))
                 cnt = seen.get(pp, 0) + 1
                 if cnt > UNROLL:
                     n = mk("cut", call=callidx, where="%s %s" % (fr_.fn.name.split(">::")[-1], fr_.bb)); branches.append((s2.pc, n.id)); continue
